@@ -6,8 +6,6 @@ props = [json.loads(l) for l in open(os.path.join(V, "properties.jsonl"))]
 NA = {
  "C04": "optimality and completeness of shortest paths quantify over run-time weights and graphs; no sound static bound in reach (structural parts are claimed under C03/C08)",
  "C05": "equality with the betweenness definition is a numerical identity over all graphs; not visible in the shape of the code (schedule-independence is C07)",
- "C12": "partition test and modularity formula are value-level; the known count-based is_partition defect has no structural signature, so a structural claim would pass a false tree",
- "C13": "termination and monotone modularity of Louvain depend on run-time floating-point gains; no static ranking argument in reach (seed reproducibility is C17)",
 }
 CLAIMS = {}
 def claim(pid, category, text, note, technique, design_ref):
